@@ -165,9 +165,15 @@ impl Directive {
                         bail!("Wrong number of arguments for .{}, {}", self, point);
                     }
                     if let Some(Operand::E(expr)) = args.first() {
-                        if let Expr::Const(n) = expr {
-                            context.push_to_last((point, Item::ReserveData(*n)));
+                        // any size known at this point (literals, .equ)
+                        if let Ok(n) = expr.run(&context.common_context) {
+                            if n < 0 || n > std::u32::MAX as i64 {
+                                bail!("size {} is out of range for .byte, {}", n, point);
+                            }
+                            context.push_to_last((point, Item::ReserveData(n)));
                         }
+                    } else {
+                        bail!("Not allowed type of arguments for .byte, {}", point);
                     }
                 } else {
                     bail!("Not allowed type of arguments for .byte, {}", point);
